@@ -1,4 +1,5 @@
 import TorrentVerif.Proofs.Effects
+import TorrentVerif.Proofs.RenameName
 /-
   C18 — inspecting commands are read-only; create writes one file; rename never clobbers.
   Thin theorems over the effects model; the strength of this property lies in the comparison of
@@ -145,5 +146,212 @@ example : Impl.renameOps [("d/x.torrent", [1, 2]), ("d/other", [3])] "d/x.torren
       = some [("d/other", [3]), ("d/name.torrent", [1, 2])] ∧
     Impl.renameOps [("d/x.torrent", [1, 2]), ("d/name.torrent", [3])] "d/x.torrent" "d/name.torrent"
       = .error .exists := by decide
+
+/-! ### the NAME handling of `rename` (`Model/RenameName.lean`)
+
+  Path strings are `Bytes` here (the Python `str` as UTF-8, as in `Model/Path.lean`);
+  `Impl.fsKey` turns one into a key of the effects model.  `info.name` is ANY byte string. -/
+
+open PosixPath in
+/-- `rename` keeps the metafile in its directory.  For EVERY byte string `info.name` — `../b/evil`,
+    an absolute path, trailing separators, separators only, bytes that are not UTF-8 — and every
+    target path string: whenever the command computes a new path at all, that path lies in the
+    directory of the target (`os.path.dirname` of both is the same string) and its last
+    component is `name + ".torrent"` where `name` — the last component of `info.name` after
+    stripping trailing separators — contains no `/` and is not empty, `.` or `..`.  So the new
+    path never names an entry of another directory. -/
+theorem rename_stays_in_directory (target infoName new : Bytes)
+    (h : Impl.renameTarget target infoName = .ok new) :
+    dirname new = dirname target ∧ (47 : UInt8) ∉ basename new ∧
+    ∃ name, name = basename (rstripSep (Impl.pyStr infoName)) ∧
+      new = join (dirname target) (name ++ Impl.sTorrent) ∧
+      basename new = name ++ Impl.sTorrent ∧
+      (47 : UInt8) ∉ name ∧ name ≠ [] ∧ name ≠ Rebuild.DOT ∧ name ≠ Rebuild.DOTDOT := by
+  obtain ⟨name, hn, rfl⟩ := Impl.renameTarget_ok target infoName new h
+  obtain ⟨hdef, hne, hdot, hdd, hsep⟩ := Impl.renameName_ok infoName name hn
+  have hs : (47 : UInt8) ∉ name ++ Impl.sTorrent := by
+    intro hm
+    rcases List.mem_append.mp hm with hm | hm
+    · exact hsep hm
+    · exact Impl.sep_not_mem_sTorrent hm
+  obtain ⟨hd, hb⟩ := dirname_join_dirname target (name ++ Impl.sTorrent) (by simp [hne]) hs
+  exact ⟨hd, sep_not_mem_basename _, name, hdef, rfl, hb, hsep, hne, hdot, hdd⟩
+
+/-- target `/tmp/d/x.torrent`: the name `../b/evil` gives `/tmp/d/evil.torrent`, `/abs/x` gives
+    `/tmp/d/x.torrent`, `a/b//` gives `/tmp/d/b.torrent`; target `x.torrent` (no directory part):
+    `../b/evil` gives `evil.torrent`; target `/x.torrent` (in the root): `/evil.torrent`; the
+    bytes `FF / a` are not UTF-8, `str()` of them is `b'\xff/a'`, the last component is `a'` -/
+example :
+    Impl.renameTarget [47, 116, 109, 112, 47, 100, 47, 120, 46, 116, 111, 114, 114, 101, 110, 116]
+        [46, 46, 47, 98, 47, 101, 118, 105, 108]
+      = .ok [47, 116, 109, 112, 47, 100, 47, 101, 118, 105, 108, 46, 116, 111, 114, 114, 101, 110, 116] ∧
+    Impl.renameTarget [47, 116, 109, 112, 47, 100, 47, 120, 46, 116, 111, 114, 114, 101, 110, 116]
+        [47, 97, 98, 115, 47, 120]
+      = .ok [47, 116, 109, 112, 47, 100, 47, 120, 46, 116, 111, 114, 114, 101, 110, 116] ∧
+    Impl.renameTarget [47, 116, 109, 112, 47, 100, 47, 120, 46, 116, 111, 114, 114, 101, 110, 116]
+        [97, 47, 98, 47, 47]
+      = .ok [47, 116, 109, 112, 47, 100, 47, 98, 46, 116, 111, 114, 114, 101, 110, 116] ∧
+    Impl.renameTarget [120, 46, 116, 111, 114, 114, 101, 110, 116] [46, 46, 47, 98, 47, 101, 118, 105, 108]
+      = .ok [101, 118, 105, 108, 46, 116, 111, 114, 114, 101, 110, 116] ∧
+    Impl.renameTarget [47, 120, 46, 116, 111, 114, 114, 101, 110, 116] [46, 46, 47, 98, 47, 101, 118, 105, 108]
+      = .ok [47, 101, 118, 105, 108, 46, 116, 111, 114, 114, 101, 110, 116] ∧
+    Impl.renameTarget [47, 47, 120, 46, 116, 111, 114, 114, 101, 110, 116] [255, 47, 97]
+      = .ok [47, 47, 97, 39, 46, 116, 111, 114, 114, 101, 110, 116] := by
+  decide +kernel
+
+/-- the hypotheses of `rename_stays_in_directory` for the first of these: both paths have the
+    directory `/tmp/d` -/
+example : PosixPath.dirname [47, 116, 109, 112, 47, 100, 47, 101, 118, 105, 108, 46, 116, 111, 114,
+      114, 101, 110, 116] = [47, 116, 109, 112, 47, 100] ∧
+    PosixPath.dirname [47, 116, 109, 112, 47, 100, 47, 120, 46, 116, 111, 114, 114, 101, 110, 116]
+      = [47, 116, 109, 112, 47, 100] := by decide +kernel
+
+open PosixPath in
+/-- The `ValueError` cases: the command refuses exactly when the last component of `info.name`
+    (trailing separators stripped) is empty, `.` or `..` — the empty name, names made of
+    separators only, `a/..`, `../` — and then no operation list exists, whatever the file
+    system holds. -/
+theorem rename_refuses_bad_name (target infoName : Bytes) :
+    ((∃ e, Impl.renameTarget target infoName = .error e) ↔
+      (basename (rstripSep (Impl.pyStr infoName)) = [] ∨
+        basename (rstripSep (Impl.pyStr infoName)) = Rebuild.DOT ∨
+        basename (rstripSep (Impl.pyStr infoName)) = Rebuild.DOTDOT)) ∧
+    (∀ e, Impl.renameTarget target infoName = .error e → e = .badName ∧
+      ∀ fs others ops, Impl.renameCmd fs others target infoName ≠ .ok ops) := by
+  have key : ∀ e, Impl.renameTarget target infoName = .error e →
+      Impl.renameName infoName = .error e := by
+    intro e h
+    unfold Impl.renameTarget at h
+    cases hn : Impl.renameName infoName with
+    | error e' => rw [hn] at h; exact h
+    | ok name => rw [hn] at h; cases h
+  refine ⟨⟨fun ⟨e, h⟩ => (Impl.renameName_error infoName e (key e h)).2, fun hc => ?_⟩,
+    fun e h => ⟨(Impl.renameName_error infoName e (key e h)).1, fun fs others ops hops => ?_⟩⟩
+  · refine ⟨.badName, ?_⟩
+    unfold Impl.renameTarget Impl.renameName
+    simp only [hc, if_true]
+  · unfold Impl.renameCmd at hops
+    split at hops
+    · cases hops
+    · rw [h] at hops; cases hops
+
+/-- the empty name, `.`, `..`, `//`, `a/..` and `../` are refused -/
+example :
+    Impl.renameTarget [100, 47, 120] [] = .error .badName ∧
+    Impl.renameTarget [100, 47, 120] [46] = .error .badName ∧
+    Impl.renameTarget [100, 47, 120] [46, 46] = .error .badName ∧
+    Impl.renameTarget [100, 47, 120] [47, 47] = .error .badName ∧
+    Impl.renameTarget [100, 47, 120] [97, 47, 46, 46] = .error .badName ∧
+    Impl.renameTarget [100, 47, 120] [46, 46, 47] = .error .badName := by decide +kernel
+
+/-- `rename` never replaces anything.  If ANYTHING exists at the new path — a regular file of
+    `fs`, or one of the `others`: a directory, a symbolic link (dangling or not), any directory
+    entry; `os.path.lexists` is membership in that set — the command performs no operation: there
+    is no operation list, and when the target exists the answer is `FileExistsError`. -/
+theorem rename_refuses_occupied (fs : FS) (others : List Path) (target infoName new : Bytes)
+    (hnew : Impl.renameTarget target infoName = .ok new)
+    (hocc : Impl.lexists fs others (Impl.fsKey new) = true) :
+    (∀ ops, Impl.renameCmd fs others target infoName ≠ .ok ops) ∧
+    (target ≠ [] → fs.has (Impl.fsKey target) = true →
+      Impl.renameCmd fs others target infoName = .error .exists) := by
+  refine ⟨fun ops h => ?_, fun ht hh => ?_⟩
+  · unfold Impl.renameCmd at h
+    split at h
+    · cases h
+    · simp [hnew, hocc] at h
+  · unfold Impl.renameCmd
+    simp [ht, hh, hnew, hocc]
+
+/-- the metafile `d/x.torrent` of the torrent `album`: the new path `d/album.torrent` is taken by
+    a regular file, or by something that is not a regular file (a directory, a dangling link) -/
+example :
+    Impl.renameTarget [100, 47, 120, 46, 116, 111, 114, 114, 101, 110, 116] [97, 108, 98, 117, 109, 47]
+      = .ok [100, 47, 97, 108, 98, 117, 109, 46, 116, 111, 114, 114, 101, 110, 116] ∧
+    Impl.renameCmd [("d/x.torrent", [1, 2]), ("d/album.torrent", [3])] []
+        [100, 47, 120, 46, 116, 111, 114, 114, 101, 110, 116] [97, 108, 98, 117, 109, 47]
+      = .error .exists ∧
+    Impl.renameCmd [("d/x.torrent", [1, 2])] ["d/album.torrent"]
+        [100, 47, 120, 46, 116, 111, 114, 114, 101, 110, 116] [97, 108, 98, 117, 109, 47]
+      = .error .exists := by decide +kernel
+
+open PosixPath in
+/-- Otherwise `rename` moves the name and nothing else.  The target is a regular file with the
+    bytes `c`, a new path is computed and nothing exists there: the operation list is the load
+    followed by exactly one `os.rename(target, new)`; it runs to completion; afterwards the new
+    path holds exactly the bytes `c`, the target path is gone, every other path is as before —
+    and the new path is in the target's directory (`rename_stays_in_directory`). -/
+theorem rename_moves_only_the_name (fs : FS) (others : List Path) (target infoName new c : Bytes)
+    (ht : target ≠ []) (hc : fs.get (Impl.fsKey target) = some c)
+    (hnew : Impl.renameTarget target infoName = .ok new)
+    (hfree : Impl.lexists fs others (Impl.fsKey new) = false) :
+    Impl.renameCmd fs others target infoName
+      = .ok [.read (Impl.fsKey target), .replace (Impl.fsKey target) (Impl.fsKey new)] ∧
+    (∃ s, run fs [.read (Impl.fsKey target), .replace (Impl.fsKey target) (Impl.fsKey new)] = some s ∧
+      s.get (Impl.fsKey new) = some c ∧ s.get (Impl.fsKey target) = none ∧
+      ∀ q, q ≠ Impl.fsKey target → q ≠ Impl.fsKey new → s.get q = fs.get q) ∧
+    dirname new = dirname target := by
+  have hh : fs.has (Impl.fsKey target) = true := (FS.has_eq_true_iff _ _).mpr ⟨c, hc⟩
+  have hn : fs.has (Impl.fsKey new) = false := by
+    unfold Impl.lexists at hfree
+    simp only [Bool.or_eq_false_iff] at hfree
+    exact hfree.1
+  refine ⟨?_, ?_, (rename_stays_in_directory target infoName new hnew).1⟩
+  · unfold Impl.renameCmd
+    simp [ht, hh, hnew, hfree]
+  · have hops : Impl.renameOps fs (Impl.fsKey target) (Impl.fsKey new)
+        = .ok [.read (Impl.fsKey target), .replace (Impl.fsKey target) (Impl.fsKey new)] := by
+      simp [Impl.renameOps, hh, hn]
+    obtain ⟨c', s, hc', _, hrun, h1, h2, h3⟩ :=
+      (rename_moves_only fs (Impl.fsKey target) (Impl.fsKey new)).2.2 _ hops
+    rw [hc] at hc'
+    cases hc'
+    exact ⟨s, hrun, h1, h2, h3⟩
+
+/-- `d/x.torrent` of the torrent `../b/evil`, next to a bystander `d/other` and a directory `b`:
+    one rename to `d/evil.torrent`, same bytes, the bystander untouched -/
+example :
+    Impl.renameCmd [("d/x.torrent", [1, 2]), ("d/other", [3])] ["b", "d"]
+        [100, 47, 120, 46, 116, 111, 114, 114, 101, 110, 116] [46, 46, 47, 98, 47, 101, 118, 105, 108]
+      = .ok [.read "d/x.torrent", .replace "d/x.torrent" "d/evil.torrent"] ∧
+    run [("d/x.torrent", [1, 2]), ("d/other", [3])]
+        [.read "d/x.torrent", .replace "d/x.torrent" "d/evil.torrent"]
+      = some [("d/other", [3]), ("d/evil.torrent", [1, 2])] := by decide +kernel
+
+/-- Conversely, an operation list is only ever produced in that situation: the target is a
+    regular file, the name is usable and nothing exists at the new path. -/
+theorem rename_ops_only_when_free (fs : FS) (others : List Path) (target infoName : Bytes)
+    (ops : List Op) (h : Impl.renameCmd fs others target infoName = .ok ops) :
+    ∃ new c, target ≠ [] ∧ fs.get (Impl.fsKey target) = some c ∧
+      Impl.renameTarget target infoName = .ok new ∧
+      Impl.lexists fs others (Impl.fsKey new) = false ∧
+      ops = [.read (Impl.fsKey target), .replace (Impl.fsKey target) (Impl.fsKey new)] := by
+  unfold Impl.renameCmd at h
+  split at h
+  · cases h
+  · rename_i hcond
+    simp only [not_or, Decidable.not_not] at hcond
+    obtain ⟨c, hc⟩ := (FS.has_eq_true_iff _ _).mp hcond.2
+    cases hn : Impl.renameTarget target infoName with
+    | error e => rw [hn] at h; cases h
+    | ok new =>
+      rw [hn] at h
+      simp only at h
+      split at h
+      · cases h
+      · rename_i hfree
+        simp only [Except.ok.injEq] at h
+        exact ⟨new, c, hcond.1, hc, rfl, by simpa using hfree, h.symm⟩
+
+/-- applied to the run of the previous example: the target exists, `d/evil.torrent` was free -/
+example : ∃ new c, ([100, 47, 120, 46, 116, 111, 114, 114, 101, 110, 116] : Bytes) ≠ [] ∧
+    FS.get [("d/x.torrent", [1, 2]), ("d/other", [3])]
+      (Impl.fsKey [100, 47, 120, 46, 116, 111, 114, 114, 101, 110, 116]) = some c ∧
+    Impl.renameTarget [100, 47, 120, 46, 116, 111, 114, 114, 101, 110, 116]
+      [46, 46, 47, 98, 47, 101, 118, 105, 108] = .ok new ∧
+    Impl.lexists [("d/x.torrent", [1, 2]), ("d/other", [3])] ["b", "d"] (Impl.fsKey new) = false ∧
+    [Op.read "d/x.torrent", .replace "d/x.torrent" "d/evil.torrent"]
+      = [.read (Impl.fsKey [100, 47, 120, 46, 116, 111, 114, 114, 101, 110, 116]),
+         .replace (Impl.fsKey [100, 47, 120, 46, 116, 111, 114, 114, 101, 110, 116]) (Impl.fsKey new)] :=
+  rename_ops_only_when_free _ _ _ _ _ (by decide +kernel)
 
 end TorrentVerif.Props.C18
